@@ -1,6 +1,7 @@
 import RV.C06.Props
 open RV.C06
 #print axioms quad_roundtrip
+#print axioms cg_roundtrip
 #print axioms each_triple_one_block
 #print axioms empty_default_ok
 #print axioms shared_bnode_preserved
